@@ -20,6 +20,9 @@ phased child a|b has a among the father's, b among the mother's alleles (input g
 phased in the same set, the child's allele equals the parent's allele on the haplotype selected by the traced
 transmission value; conflict / missing variants are unphased in all family members; child-het with a homozygous
 parent (no conflict/missing in the family) is phased when genetic haplotyping is on, reads or not.
+The REPORTED transmission (--recombination-list, recombining children with cheap recombination): for every listed event
+the child's allele at position1/position2 equals the parental allele on the haplotype selected by the reported value;
+a switch of the transmitted haplotype visible in the phased haplotypes inside a phase set is listed; list = traced vector.
 Correspondence on every run: retained / homozygous positions, traced super-reads of every column, and which calls
 the writer phased, against the model.
 """
@@ -368,26 +371,40 @@ def gen_cli_case(rng, mode):
     sub = rng.randrange(1 << 30)
     r = random.Random(sub)
     n_children = 2 if "quartet" in mode else 1
-    case = G.make_family_case(r, n_children=n_children, n_variants=(12, 26), contig_len=(2500, 5000), all_triples=True,
-                              missing_prob=0.06, conflict_prob=0.15, unrelated=r.random() < 0.25, n_recomb=(0, 2))
-    # sample order in the VCF (= member order in the pedigree) is arbitrary
+    recomb = mode.split("-")[1] == "recomb"
+    if recomb:
+        # recombining children, mostly heterozygous parents, deep error-free long reads (parents and children end up in one
+        # phase set), cheap recombination: paternal AND maternal recombinations inside a phase set get detected and listed
+        case = G.make_family_case(r, n_children=n_children, n_variants=(16, 30), contig_len=(3000, 5000), all_triples=False,
+                                  parent_gt_weights=(1, 7, 1), missing_prob=0.02, conflict_prob=0.02,
+                                  unrelated=r.random() < 0.2, n_recomb=(1, 3))
+    else:
+        case = G.make_family_case(r, n_children=n_children, n_variants=(12, 26), contig_len=(2500, 5000), all_triples=True,
+                                  missing_prob=0.06, conflict_prob=0.15, unrelated=r.random() < 0.25, n_recomb=(0, 2))
+    # sample order in the VCF (= member order in the pedigree) is arbitrary: children may come before their parents
     if r.random() < 0.6:
         r.shuffle(case["samples"])
-    depth_choice = {"noreads": [0], "sparse": [0, 0.3, 0.8], "deep": [2, 4, 8]}[mode.split("-")[1]]
+    elif recomb and r.random() < 0.5:
+        case["samples"].sort(key=lambda x: (not x.startswith("child"), x))      # children first
+    depth_choice = {"noreads": [0], "sparse": [0, 0.3, 0.8], "deep": [2, 4, 8], "recomb": [4, 6, 8]}[mode.split("-")[1]]
     for s in case["samples"]:
         d = r.choice(depth_choice)
-        if d:
+        if d and recomb:
+            G.add_reads(r, case, s, depth=d, read_len=(150, 450))
+        elif d:
             G.add_reads(r, case, s, depth=d, read_len=(60, 220), paired_frac=r.choice([0.0, 0.4]), insert=(60, 400),
                         noise=r.choice([0, 0, 0.1, 0.3]))
     args = ["--tag", r.choice(["PS", "PS", "HP"])]
     if mode.endswith("nogenetic"):
         args.append("--no-genetic-haplotyping")
-    if r.random() < 0.35:
+    if recomb:
+        args += ["--recombrate", str(r.choice([5000, 100000, 1000000]))]
+    elif r.random() < 0.35:
         G.make_genmap(r, case)
         args += ["--chromosome", "chr1"]
     else:
         args += ["--recombrate", str(r.choice([0.01, 1.26, 50, 5000]))]
-    args += ["--internal-downsampling", str(r.choice([4, 9, 15]))]
+    args += ["--internal-downsampling", "15" if recomb else str(r.choice([4, 9, 15]))]
     return {"kind": "cli", "mode": mode, "data": case, "args": args, "use_ref": r.random() < 0.5, "sub_seed": sub}
 
 
@@ -402,8 +419,8 @@ def run_cli(ctx, batch, case):
         if "genmap" in paths:
             args += ["--genmap", paths["genmap"]]
         args += ["--reference", paths["fasta"]] if case["use_ref"] else ["--no-reference"]
-        # (--recombination-list is not used: it crashes on a family without accessible positions, see notes/C05.md)
-        args += [paths["vcf"], paths["bam"]]
+        rl = os.path.join(d, "recomb.tsv")
+        args += ["--recombination-list", rl, paths["vcf"], paths["bam"]]
         rc, so, se, trace = sim.whatshap(args, ctx.overlay, trace=os.path.join(d, "trace.jsonl"))
         ctx.evaluated()
         if rc != 0:
@@ -417,12 +434,119 @@ def run_cli(ctx, batch, case):
         except Exception as e:      # the output of a successful run must be a readable VCF
             ctx.fail(f"output VCF of whatshap phase cannot be parsed: {type(e).__name__}: {e}", case, key="output-vcf-unreadable")
             return
-        check_cli(ctx, batch, case, samples, recs, inrecs, trace)
+        check_cli(ctx, batch, case, samples, recs, inrecs, trace, read_recombination_list(ctx, case, rl))
     finally:
         shutil.rmtree(d, ignore_errors=True)
 
 
-def check_cli(ctx, batch, case, samples, recs, inrecs, trace):
+def read_recombination_list(ctx, case, path):
+    """rows of --recombination-list as dicts (positions 0-based); None if the file is missing/unreadable"""
+    if not os.path.exists(path):
+        ctx.fail("--recombination-list was requested but no file was written", case, key="recombination-list-missing")
+        return None
+    rows = []
+    for ln, line in enumerate(open(path)):
+        f = line.split()
+        if ln == 0 and line.startswith("#"):
+            continue
+        try:
+            rows.append({"child": f[0], "chrom": f[1], "pos1": int(f[2]) - 1, "pos2": int(f[3]) - 1, "f1": int(f[4]), "f2": int(f[5]),
+                         "m1": int(f[6]), "m2": int(f[7]), "cost": f[8]})
+        except (IndexError, ValueError):
+            ctx.fail(f"--recombination-list line {ln + 1} cannot be parsed: {line!r}", case, key="recombination-list-unreadable")
+            return None
+    return rows
+
+
+def check_recombination_list(ctx, case, t, rows, phase, sr, fidx):
+    """The clause 'the child's allele equals the allele on the parental haplotype selected by the REPORTED transmission',
+    evaluated on the rows of --recombination-list of one family/chromosome, plus 'a recombination visible in the phased
+    haplotypes inside a phase set is reported'.  Reported value v selects the parental haplotype with index 1 - v of the
+    output VCF (the code's convention, see notes)."""
+    trios, acc, tv = t["trios"], t["accessible_positions"], t["transmission_vector"]
+    col_of = {p: i for i, p in enumerate(acc)}
+    comps = {a: b for a, b in t["overall_components"]}
+    blocks = {}
+    for p in sorted(comps):
+        blocks.setdefault(comps[p], []).append(p)
+    children = {c: k for k, (_, _, c) in enumerate(trios)}
+    mine = [r for r in rows if r["chrom"] == t["chromosome"] and r["child"] in children]
+    conv = Conv()          # VCF level: child and parent phased in the same set
+    conv_sr = Conv()       # super-read level: every accessible position
+    n_pat = n_mat = 0
+    for r in mine:
+        k = children[r["child"]]
+        f, m, c = trios[k]
+        n_pat += r["f1"] != r["f2"]; n_mat += r["m1"] != r["m2"]
+        for pos, vals in ((r["pos1"], (r["f1"], r["m1"])), (r["pos2"], (r["f2"], r["m2"]))):
+            for which, parent in ((0, f), (1, m)):
+                v = vals[which]
+                who = "father" if which == 0 else "mother"
+                if v not in (0, 1):
+                    ctx.fail(f"recombination list: transmitted_hap_{who} = {v} for child {c} at {pos + 1}", case, key="reported-transmission-mismatch")
+                    continue
+                if pos in phase[c] and pos in phase[parent] and phase[parent][pos][0] == phase[c][pos][0]:
+                    conv.see(v, phase[c][pos][1][which], phase[parent][pos][1],
+                             f"recombination list row {r['child']} {r['pos1'] + 1}-{r['pos2'] + 1}: at {pos + 1} child {c} is "
+                             f"{phase[c][pos][1][0]}|{phase[c][pos][1][1]}, {who} {parent} is {phase[parent][pos][1][0]}|{phase[parent][pos][1][1]} "
+                             f"in the same phase set, reported transmitted_hap_{who} = {v}")
+                if pos in col_of:
+                    ca = sr[fidx[c]][col_of[pos]][1:][which]
+                    pa = sr[fidx[parent]][col_of[pos]][1:]
+                    if ca in (0, 1) and all(x in (0, 1) for x in pa):
+                        conv_sr.see(v, ca, pa, f"recombination list row {r['child']} {r['pos1'] + 1}-{r['pos2'] + 1}: at {pos + 1} the child's "
+                                    f"haplotype {which} carries {ca}, the {who}'s haplotypes carry {pa}, reported transmitted_hap_{who} = {v}")
+    for cv, level in ((conv, "output VCF"), (conv_sr, "super-reads")):
+        v = cv.verdict()
+        if v == "violated":
+            ctx.fail(f"the child's allele is not the allele on the parental haplotype selected by the REPORTED transmission "
+                     f"(--recombination-list, {level}): {cv.first_bad}", case, key="reported-transmission-mismatch")
+        elif v == "flipped":
+            ctx.disagree("recombination-list-bit-convention", case, "value v selects parental haplotype v", "value v selects parental haplotype 1-v")
+    # ---- what the traced transmission vector says must be listed (from the third variant of a block on), with these values
+    want = set()
+    for k, (f, m, c) in enumerate(trios):
+        for blk in blocks.values():
+            vals = [(tv[col_of[p]] >> (2 * k)) & 3 for p in blk]
+            for i in range(2, len(blk)):
+                if vals[i - 1] != vals[i]:
+                    want.add((c, blk[i - 1], blk[i], vals[i - 1] % 2, vals[i] % 2, vals[i - 1] // 2, vals[i] // 2))
+    got = {(r["child"], r["pos1"], r["pos2"], r["f1"], r["f2"], r["m1"], r["m2"]) for r in mine}
+    for e in sorted(want):
+        if not any(g[:3] == e[:3] for g in got):
+            ctx.fail(f"recombination of child {e[0]} between {e[1] + 1} and {e[2] + 1} (transmission {e[3]}{e[5]} -> {e[4]}{e[6]} father,mother; "
+                     f"inside a phase set, not at its first two variants) is not in the recombination list", case, key="recombination-not-reported")
+    if got != want and all(any(g[:3] == e[:3] for g in got) for e in want):
+        ctx.disagree("recombination-list-vs-traced-transmission", case, sorted(got), sorted(want))
+    # ---- visible in the phased haplotypes of the OUTPUT VCF alone: between two positions of a block at which child and a
+    # (heterozygous) parent are phased in the same set, the transmitted parental haplotype changes iff an odd number of listed
+    # events of that parent lies in between.  (The pair formed by the first two variants of a block is never listed.)
+    n_visible = 0
+    for k, (f, m, c) in enumerate(trios):
+        for which, parent in ((0, f), (1, m)):
+            for blk in blocks.values():
+                info = []
+                for p in blk[1:]:
+                    if p in phase[c] and p in phase[parent] and phase[parent][p][0] == phase[c][p][0]:
+                        pa, a = phase[parent][p][1], phase[c][p][1][which]
+                        if pa[0] != pa[1] and a in pa:
+                            info.append((p, pa.index(a)))
+                for (p, hp), (q, hq) in zip(info, info[1:]):
+                    n = sum(1 for r in mine if r["child"] == c and p <= r["pos1"] and r["pos2"] <= q
+                            and (r["f1"] != r["f2"] if which == 0 else r["m1"] != r["m2"]))
+                    n_visible += hp != hq
+                    if (hp != hq) != (n % 2 == 1):
+                        who = "father" if which == 0 else "mother"
+                        ctx.fail(f"child {c}: between {p + 1} and {q + 1} (same phase set as the {who} {parent}) the child's haplotype {which} "
+                                 f"{'switches' if hp != hq else 'stays on the same'} parental haplotype ({hp} -> {hq}) but the recombination list "
+                                 f"has {n} {who}-side event(s) in between", case, key="recombination-list-inconsistent-with-phase")
+    ctx.dist("cli_listed_paternal_recombinations", min(n_pat, 6)); ctx.dist("cli_listed_maternal_recombinations", min(n_mat, 6))
+    ctx.dist("cli_recombination_rows_checked_on_vcf_alleles", min(conv.n, 12))
+    ctx.dist("cli_visible_recombinations_in_phase", min(n_visible, 6))
+    return n_pat, n_mat
+
+
+def check_cli(ctx, batch, case, samples, recs, inrecs, trace, rows=None):
     from harness.gen import c05_ped as G
     data = case["data"]
     genetic = "--no-genetic-haplotyping" not in case["args"]
@@ -513,6 +637,11 @@ def check_cli(ctx, batch, case, samples, recs, inrecs, trace):
             batch.add(req, cb_sr)
         # super-read level oracle too (all positions, not only those the writer phased)
         superread_oracle(ctx, case, fam, trios, acc, t["genotypes"], sr, tv, "whatshap phase (trace)")
+        # the reported transmission: --recombination-list
+        if rows is not None:
+            n_pat, n_mat = check_recombination_list(ctx, case, t, rows, phase, sr, fidx)
+            if n_pat and n_mat:
+                ctx.nontrivial("recomb" + json.dumps([case["sub_seed"], case["mode"]]))
         # the writer: phased in the output <=> position has a component, both super-read alleles are 0/1, call is het
         comps = {a: b for a, b in t["overall_components"]}
         for s in fam:
@@ -575,7 +704,8 @@ def run(ctx):
     modes = ["trio-noreads", "trio-sparse", "trio-deep", "trio-deep", "quartet-noreads", "quartet-sparse", "quartet-deep",
              "quartet-deep", "trio-sparse", "quartet-sparse", "trio-noreads-nogenetic", "trio-deep-nogenetic",
              "quartet-sparse-nogenetic", "trio-deep", "quartet-deep", "trio-sparse", "quartet-noreads", "trio-noreads",
-             "quartet-deep-nogenetic", "quartet-sparse"]
+             "quartet-deep-nogenetic", "quartet-sparse", "trio-recomb", "quartet-recomb", "trio-recomb", "quartet-recomb",
+             "trio-recomb", "quartet-recomb"]
     if not ctx.quick:
         modes = modes * 10
     for m in modes * ctx.scale:
